@@ -65,6 +65,10 @@ func (r *Runner) solveAll(obs []*govc.Oblig) []*OblResult {
 				out[i] = &OblResult{O: o, R: r.Solver.CheckQuick(q, 2*time.Second), Query: q}
 				return
 			}
+			if o.ForceFail {
+				out[i] = &OblResult{O: o, R: smt.Result{Status: "unknown", Solver: "static", Outputs: map[string]string{"static": "fails by construction: " + o.Desc}}, Query: q}
+				return
+			}
 			if o.Cand >= 0 {
 				b := 2 * time.Second
 				if r.candBudget > 0 {
